@@ -537,9 +537,10 @@ def run(ctx):
             neg, t_ = not neg, t_.operand
         if not (isinstance(t_, ast.Compare) and len(t_.ops) == 1):
             return None
-        l_ = ast.unparse(_sdef(ev.node, t_.left, {"self"})).replace(" ", "")
-        r_ = ast.unparse(_sdef(ev.node, t_.comparators[0], {"self"})).replace(" ", "")
-        is_size = lambda x: x in ("self._size()", "(_size:=self._size())")  # noqa: E731
+        unwalrus = lambda e: e.value if isinstance(e, ast.NamedExpr) else e  # noqa: E731   (`(s := self._size()) > limit`)
+        l_ = ast.unparse(_sdef(ev.node, unwalrus(t_.left), {"self"})).replace(" ", "")
+        r_ = ast.unparse(_sdef(ev.node, unwalrus(t_.comparators[0]), {"self"})).replace(" ", "")
+        is_size = lambda x: x == "self._size()"  # noqa: E731
         is_lim = lambda x: x == "self.config.max_size_bytes"  # noqa: E731
         o = t_.ops[0]
         rel = None
